@@ -48,6 +48,21 @@ Proof.
     repeat destruct H as [H|H]; subst; try reflexivity; contradiction.
 Qed.
 
+(* the action announcing a spawned task, by kind *)
+Definition spawn_match (act : action) (x : nat * task_kind) : bool :=
+  match act, snd x with
+  | AMw i _ _ _, (TMw _ | TTitanMw) => Nat.eqb i (fst x)
+  | AHandlerTask i, THandler _ => Nat.eqb i (fst x)
+  | AUpload i _ _, TUpload => Nat.eqb i (fst x)
+  | _, _ => false
+  end.
+Lemma spawn_match_id act x : spawn_match act x = true -> spawn_id act = Some (fst x).
+Proof.
+  unfold spawn_match. destruct act, (snd x); try discriminate; intro H; apply Nat.eqb_eq in H; subst; reflexivity.
+Qed.
+Lemma spawn_match_not_wc act x : spawn_match act x = true -> is_close act = false /\ is_write act = false.
+Proof. destruct act; cbn; try discriminate; auto. Qed.
+
 (* ---------- effect summary ---------- *)
 Record Eff (s s' : st) (a : list action) : Prop := {
   e_closes : (closes a + cs s = cs s')%nat;
@@ -55,7 +70,7 @@ Record Eff (s s' : st) (a : list action) : Prop := {
   e_silent : tr s = false -> existsb is_write a = false;
   e_timer : timer s <> TArmed -> timer s' <> TArmed;
   e_pend : forall x, In x (pending s') ->
-           In x (pending s) \/ exists act, In act a /\ spawn_id act = Some (fst x) }.
+           In x (pending s) \/ exists act, In act a /\ spawn_match act x = true }.
 
 Lemma Eff_refl s : Eff s s [].
 Proof. constructor; cbn; auto. Qed.
@@ -113,15 +128,15 @@ Proof.
   - congruence.
 Qed.
 
-Lemma Eff_spawn s k act : spawn_id act = Some (next_id s) -> is_close act = false -> is_write act = false ->
-  Eff s (fst (spawn s k)) [act].
+Lemma Eff_spawn s k act : spawn_match act (next_id s, k) = true -> Eff s (fst (spawn s k)) [act].
 Proof.
-  intros H1 H2 H3. constructor; cbn; auto.
+  intros H1. destruct (spawn_match_not_wc _ _ H1) as [H2 H3]. constructor; cbn; auto.
   - unfold closes. cbn. rewrite H2. reflexivity.
   - rewrite H3. reflexivity.
   - intros x Hx. apply in_app_or in Hx as [Hx|[Hx|[]]]; [left; assumption|].
-    right. exists act. subst x. cbn. auto.
+    right. exists act. subst x. auto.
 Qed.
+Ltac eff_spawn := apply Eff_spawn; cbn; apply Nat.eqb_refl.
 
 Lemma take_task_incl id (p : list (nat * task_kind)) x : In x (snd (take_task id p)) -> In x p.
 Proof.
@@ -166,13 +181,13 @@ Proof.
   unfold ServerProto.route. destruct (handler line).
   - use_send s r. apply Eff_cons; auto.
   - rewrite send_error_eq. use_send s (err_resp 40 (lit "Server error: " ++ msg)). apply Eff_cons; auto.
-  - rewrite spawn_let; cbn [fst snd]. apply Eff_cons; auto. apply Eff_spawn; reflexivity.
+  - rewrite spawn_let; cbn [fst snd]. apply Eff_cons; auto. eff_spawn.
 Qed.
 
 Lemma Eff_handle_gemini s line : Eff s (fst (handle_gemini s line)) (snd (handle_gemini s line)).
 Proof.
   unfold ServerProto.handle_gemini. destruct (gemini_from_line ip6 line).
-  - destruct has_mw; [|apply Eff_route]. rewrite spawn_let; cbn [fst snd]. apply Eff_spawn; reflexivity.
+  - destruct has_mw; [|apply Eff_route]. rewrite spawn_let; cbn [fst snd]. eff_spawn.
   - rewrite send_error_eq. apply Eff_send.
   - cbn. apply Eff_cons; auto. apply Eff_refl.
 Qed.
@@ -180,7 +195,7 @@ Qed.
 Lemma Eff_start_upload s : Eff s (fst (start_upload s)) (snd (start_upload s)).
 Proof.
   unfold ServerProto.start_upload. destruct (titan s); [|apply Eff_refl].
-  destruct has_upload; [|apply Eff_refl]. rewrite spawn_let; cbn [fst snd]. apply Eff_spawn; reflexivity.
+  destruct has_upload; [|apply Eff_refl]. rewrite spawn_let; cbn [fst snd]. eff_spawn.
 Qed.
 
 Lemma Eff_ptu s : Eff s (fst (process_titan_upload s)) (snd (process_titan_upload s)).
@@ -188,7 +203,7 @@ Proof.
   unfold ServerProto.process_titan_upload. eapply Eff_pre; [apply (Eff_set_await s false)|].
   set (s1 := set_await s false). destruct (titan s1).
   - destruct (negb has_upload); [rewrite send_error_eq; apply Eff_send|].
-    destruct has_mw; [|apply Eff_start_upload]. rewrite spawn_let; cbn [fst snd]. apply Eff_spawn; reflexivity.
+    destruct has_mw; [|apply Eff_start_upload]. rewrite spawn_let; cbn [fst snd]. eff_spawn.
   - rewrite send_error_eq; apply Eff_send.
 Qed.
 
